@@ -342,6 +342,18 @@ func c10Specs(thorough bool) []*gen.ProgSpec {
 							// video, audio, third track
 							o3 := append(order2(chv, cha, 0, 1), order2(chv, nil, 2, 2)...)
 							specs = append(specs, &gen.ProgSpec{Tracks: []gen.ProgTrack{v, a, t3}, ChunkOrder: o3})
+							// two video tracks whose sync samples differ (the FIRST video track is the reference), and two audio
+							// tracks without video (the first audio track is the reference)
+							v2 := mkTrack("video", 1000, nv, chv, td, 0, 1, true)
+							if mask == 1 {
+								v2 = mkTrack("video", 1000, nv, chv, td, 0, 1<<uint(nv)-1, true)
+							}
+							v2.Edts = false
+							specs = append(specs, &gen.ProgSpec{Tracks: []gen.ProgTrack{v, v2}, ChunkOrder: order2(chv, chv, 0, 1)})
+							specs = append(specs, &gen.ProgSpec{Tracks: []gen.ProgTrack{v2, v}, ChunkOrder: order2(chv, chv, 0, 1)})
+							a2 := mkTrack("audio", 1000, nv, chv, td, 0, 0, false)
+							a2.Edts = false
+							specs = append(specs, &gen.ProgSpec{Tracks: []gen.ProgTrack{a, a2}, ChunkOrder: order2(cha, chv, 0, 1)})
 						}
 					}
 				}
@@ -512,7 +524,7 @@ func runC10(c *vf.Ctx) {
 	} else {
 		c.SetBudget(4 * 60 * 1e9)
 	}
-	c.Rule = "generated progressive files: single video track with stss (all chunkings x every sync subset containing sample 1 x duration tuples over {1,2,3} x ctts/sdtp/co64/edts/mdat-first/64-bit-mdat-header variants), single audio / video track without stss (also with a track header duration of half the media duration and of zero), video+audio (all chunkings of both x every merge order of the chunks in mdat x sync subsets; audio timescale 1000 and 600) ; audio (timescale 600 / 441) before the video track, and three tracks (video, audio in another timescale, a third track in the reference timescale); single video tracks with empty samples (every size tuple over {0,1,2} with a zero, three chunkings); single video (with stss) / audio tracks of 3-4 samples with durations over {2^31, 2^32-1, 1} ticks at timescales 1000 / 90000 / 10^7 (decode times beyond 2^32 ticks inside one stts run); each file is cropped in-process by the tool's own cropMP4 (overlay-injected driver) at EVERY millisecond 1..total+2 (files longer than 5 s: at the boundary set of milliseconds around every sample start of every track, and 1, total+1, total+2). A case = (file, ms). Only successful crops are judged; tool errors/panics are tallied."
+	c.Rule = "generated progressive files: single video track with stss (all chunkings x every sync subset containing sample 1 x duration tuples over {1,2,3} x ctts/sdtp/co64/edts/mdat-first/64-bit-mdat-header variants), single audio / video track without stss (also with a track header duration of half the media duration and of zero), video+audio (all chunkings of both x every merge order of the chunks in mdat x sync subsets; audio timescale 1000 and 600) ; audio (timescale 600 / 441) before the video track, and three tracks (video, audio in another timescale, a third track in the reference timescale), two video tracks with different sync samples in either order, two audio tracks without video; single video tracks with empty samples (every size tuple over {0,1,2} with a zero, three chunkings); single video (with stss) / audio tracks of 3-4 samples with durations over {2^31, 2^32-1, 1} ticks at timescales 1000 / 90000 / 10^7 (decode times beyond 2^32 ticks inside one stts run); each file is cropped in-process by the tool's own cropMP4 (overlay-injected driver) at EVERY millisecond 1..total+2 (files longer than 5 s: at the boundary set of milliseconds around every sample start of every track, and 1, total+1, total+2). A case = (file, ms). Only successful crops are judged; tool errors/panics are tallied."
 	c.Bound = "single track N <= 5 (quick) / 7 (thorough) samples; video+audio N <= 3 / 4 each, audio timescale 1000 and 600 (reference track always 1000)"
 	specs := c10Specs(thorough)
 	c.Set("files", len(specs))
